@@ -14,6 +14,8 @@ import (
 	"bufio"
 	"bytes"
 	"compress/gzip"
+	"encoding/binary"
+	"encoding/hex"
 	"encoding/json"
 	"errors"
 	"fmt"
@@ -22,9 +24,11 @@ import (
 	"os/exec"
 	"regexp"
 	"runtime"
+	"runtime/metrics"
 	"strconv"
 	"strings"
 	"sync"
+	"sync/atomic"
 	"syscall"
 	"time"
 
@@ -112,6 +116,29 @@ func (b *baseT) fieldAt(off int) string {
 		}
 	}
 	return "data"
+}
+
+// declaredSnapKB: the largest snap length the file declares, read at the snaplen fields of the layout map
+// (classic files may be of either byte order)
+func (b *baseT) declaredSnapKB(f []byte) int {
+	m := uint32(0)
+	for _, fd := range b.Fields {
+		n := fd[0].(string)
+		off := int(fd[1].(float64))
+		if (n != "idb.snaplen" && n != "pcap.snaplen") || off+4 > len(f) {
+			continue
+		}
+		v := binary.LittleEndian.Uint32(f[off:])
+		if n == "pcap.snaplen" {
+			if w := binary.BigEndian.Uint32(f[off:]); w > v {
+				v = w
+			}
+		}
+		if v > m {
+			m = v
+		}
+	}
+	return kb(uint64(m))
 }
 
 // randomCase derives case number j (beyond the TLC cases) from the seed alone, so that every child agrees on it.
@@ -252,6 +279,7 @@ type obsT struct {
 	end    string
 	fired  bool
 	makb   int
+	runkb  int
 	site   string
 	snapkb int
 }
@@ -267,18 +295,44 @@ func (o *obsT) key() string {
 
 var memA, memB runtime.MemStats
 
-func allocKB(f func()) int {
+// runAllocKB: MemStats.TotalAlloc delta around f (stops the world twice: used once per run)
+func runAllocKB(f func()) int {
 	runtime.ReadMemStats(&memA)
 	f()
 	runtime.ReadMemStats(&memB)
 	return int((memB.TotalAlloc - memA.TotalAlloc + 1023) / 1024)
 }
 
+// allocKB: the same cumulative counter (/gc/heap/allocs:bytes is MemStats.TotalAlloc) read through runtime/metrics,
+// which does not stop the world: cheap enough for every single reader call.  Allocations served from a span the
+// goroutine already holds are accounted when the span is exchanged, i.e. the per-call figure may lag by less than a
+// span (< 64 KiB); everything larger is accounted immediately.
+var allocSample = []metrics.Sample{{Name: "/gc/heap/allocs:bytes"}}
+
+func heapAllocs() uint64 {
+	metrics.Read(allocSample)
+	return allocSample[0].Value.Uint64()
+}
+
+func allocKB(f func()) int {
+	a := heapAllocs()
+	f()
+	b := heapAllocs()
+	return int((b - a + 1023) / 1024)
+}
+
 var marker *os.File
 var recycle bool
 
+var lastMark [4]interface{}
+
 func mark(ci int, rd string, sh string, snapkb int) {
 	if marker != nil {
+		cur := [4]interface{}{ci, rd, sh, snapkb}
+		if cur == lastMark {
+			return
+		}
+		lastMark = cur
 		s := fmt.Sprintf("%d %s %s %d", ci, rd, sh, snapkb)
 		marker.WriteAt([]byte(fmt.Sprintf("%-120s\n", s)), 0)
 	}
@@ -312,8 +366,8 @@ func errClass(err error) string {
 }
 
 // runStream reads the stream src with reader configuration rdm ("copy", "zero", optionally "+mixed").
-// perCall: measure the allocation of every call (otherwise of the whole run).
-func runStream(ci int, format, rdm, shName string, src io.Reader, perCall bool) (o obsT) {
+// Every call is measured through runtime/metrics; with runTotal the whole run is also measured by MemStats.TotalAlloc.
+func runStream(ci int, format, rdm, shName string, src io.Reader, perCall bool) (o obsT) { // perCall = runTotal
 	zero := strings.HasPrefix(rdm, "zero")
 	opt := pcapgo.NgReaderOptions{}
 	if strings.HasSuffix(rdm, "+mixed") {
@@ -331,16 +385,12 @@ func runStream(ci int, format, rdm, shName string, src io.Reader, perCall bool) 
 		step := func(f func()) (panicked bool) {
 			var msg, site string
 			g := func() { msg, site, panicked = vh.Guard(f) }
-			if perCall {
-				if a := allocKB(g); a > o.makb {
-					o.makb = a
-				}
-			} else {
-				g()
+			if a := allocKB(g); a > o.makb {
+				o.makb = a
 			}
 			if panicked {
 				o.end = "panic"
-				o.site = vh.SiteSig(os.Getenv("VERIF_REPO"), site) + " :: " + trim(msg, 80)
+				o.site = vh.SiteSig(os.Getenv("VERIF_REPO"), site) + " :: " + digitsRe.ReplaceAllString(trim(msg, 80), "N")
 			}
 			return
 		}
@@ -370,17 +420,29 @@ func runStream(ci int, format, rdm, shName string, src io.Reader, perCall bool) 
 		o.end = "none"
 	}
 	run := body
-	if !perCall {
-		run = func() { o.makb = allocKB(body) }
+	if perCall {
+		run = func() { o.runkb = runAllocKB(body) }
 	}
-	if !vh.WithTimeout(60*time.Second, run) {
-		o = obsT{end: "hang"}
-	}
+	// the run executes on this goroutine; childWatchdog aborts the process (exit 5) when it does not finish, and the
+	// parent attributes the hang to the case named by the marker
+	runStart.Store(time.Now().UnixNano())
+	run()
+	runStart.Store(0)
 	if o.makb > 32*1024 {
 		recycle = true
 	}
 	return
 }
+
+// random corruptions carry the corrupted file itself (TLC cases are reproducible from base, offset and bytes)
+func caseHex(c *caseT) string {
+	if c.Src == "rand" {
+		return hex.EncodeToString(c.file)
+	}
+	return ""
+}
+
+var digitsRe = regexp.MustCompile(`\d+`)
 
 func trim(s string, n int) string {
 	if len(s) > n {
@@ -389,11 +451,17 @@ func trim(s string, n int) string {
 	return s
 }
 
+var gzw *gzip.Writer
+
 func gz(b []byte) []byte {
 	var buf bytes.Buffer
-	w := gzip.NewWriter(&buf)
-	w.Write(b)
-	w.Close()
+	if gzw == nil {
+		gzw = gzip.NewWriter(&buf)
+	} else {
+		gzw.Reset(&buf)
+	}
+	gzw.Write(b)
+	gzw.Close()
 	return buf.Bytes()
 }
 
@@ -413,7 +481,7 @@ func runCase(ci int, c *caseT, p *plan, seed uint64, nchk, ninj int) []vh.M {
 		gzf = gz(f)
 	}
 	evs := []vh.M{{"op": "case", "cs": ci, "fmt": format, "base": c.Base, "loc": c.Loc, "cls": c.Cls, "src": c.Src,
-		"present": len(f) + len(gzf), "size": len(f)}}
+		"present": len(f) + len(gzf), "size": len(f), "hex": caseHex(c)}}
 	modes := []string{"copy", "zero"}
 	if format == "ng" {
 		modes = []string{"copy", "zero", "copy+mixed", "zero+mixed"}
@@ -462,7 +530,7 @@ func runCase(ci int, c *caseT, p *plan, seed uint64, nchk, ninj int) []vh.M {
 		}
 		var groups []*grp
 		idx := map[string]*grp{}
-		snapkb := 0
+		snapkb := p.bases[c.Base].declaredSnapKB(f)
 		for si, sh := range shapes {
 			data := f
 			if sh.kind == "gz" || sh.kind == "gzone" {
@@ -488,6 +556,9 @@ func runCase(ci int, c *caseT, p *plan, seed uint64, nchk, ninj int) []vh.M {
 			if o.makb > g.o.makb {
 				g.o.makb = o.makb
 			}
+			if o.runkb > g.o.runkb {
+				g.o.runkb = o.runkb
+			}
 			if g.shapes[sh.kind] == 0 {
 				g.order = append(g.order, sh.kind)
 			}
@@ -512,7 +583,7 @@ func runCase(ci int, c *caseT, p *plan, seed uint64, nchk, ninj int) []vh.M {
 				dh, dl := half(cl.dl)
 				calls = append(calls, []interface{}{ch, cl0, lh, ll, dh, dl, cl.dg})
 			}
-			gl = append(gl, vh.M{"shapes": shl, "calls": calls, "end": g.o.end, "fired": g.o.fired, "makb": g.o.makb, "site": g.o.site})
+			gl = append(gl, vh.M{"shapes": shl, "calls": calls, "end": g.o.end, "fired": g.o.fired, "makb": g.o.makb, "runkb": g.o.runkb, "site": g.o.site})
 		}
 		evs = append(evs, vh.M{"op": "mode", "cs": ci, "rd": m, "snapkb": snapkb, "groups": gl})
 		if recycle {
@@ -537,6 +608,18 @@ func runCase(ci int, c *caseT, p *plan, seed uint64, nchk, ninj int) []vh.M {
 
 const asCapMiB = 3072 // address-space cap of a child
 
+var runStart atomic.Int64
+
+func childWatchdog() {
+	for {
+		time.Sleep(500 * time.Millisecond)
+		if t := runStart.Load(); t != 0 && time.Now().UnixNano()-t > int64(60*time.Second) {
+			fmt.Fprintln(os.Stderr, "HANG: reader call did not return within 60 s")
+			os.Exit(5)
+		}
+	}
+}
+
 func mainChild(in, out string, nrand int, seed uint64, from, to, nchk, ninj int) {
 	lim := syscall.Rlimit{Cur: asCapMiB << 20, Max: asCapMiB << 20}
 	syscall.Setrlimit(syscall.RLIMIT_AS, &lim)
@@ -546,19 +629,32 @@ func mainChild(in, out string, nrand int, seed uint64, from, to, nchk, ninj int)
 	if marker, err = os.OpenFile(out+".marker", os.O_CREATE|os.O_RDWR|os.O_TRUNC, 0o644); err != nil {
 		vh.Fatal(err)
 	}
-	tr := vh.NewTrace(out)
+	tf, err := os.Create(out)
+	if err != nil {
+		vh.Fatal(err)
+	}
+	go childWatchdog()
 	for i := from; i < to; i++ {
 		c := p.caseAt(i, seed)
 		evs := runCase(i+1, &c, p, seed, nchk, ninj)
-		tr.EmitBlock(evs)
-		tr.Flush()
+		// the events of a case reach the file in one write, only when the case is complete
+		var blk bytes.Buffer
+		for _, ev := range evs {
+			b, err := json.Marshal(ev)
+			if err != nil {
+				vh.Fatal("trace marshal:", err)
+			}
+			blk.Write(bytes.ReplaceAll(b, []byte(":null"), []byte(":[]")))
+			blk.WriteByte('\n')
+		}
+		tf.Write(blk.Bytes())
 		if recycle && i+1 < to {
-			tr.Close()
+			tf.Close()
 			fmt.Printf("{\"next\":%d}\n", i+1)
 			os.Exit(4)
 		}
 	}
-	tr.Close()
+	tf.Close()
 	fmt.Printf("{\"next\":%d}\n", to)
 }
 
@@ -627,6 +723,9 @@ func mainHostile(in, out string, nrand int, seed uint64, workers, nchk, ninj int
 				ci, _ := strconv.Atoi(fs[0])
 				snapkb, _ := strconv.Atoi(fs[3])
 				msg := stderr.String()
+				if cc := p.caseAt(ci-1, seed); p.bases[cc.Base].declaredSnapKB(cc.file) > snapkb {
+					snapkb = p.bases[cc.Base].declaredSnapKB(cc.file)
+				}
 				oom := false
 				reqkb := 0
 				if m := oomRe.FindStringSubmatch(msg); m != nil {
@@ -645,14 +744,24 @@ func mainHostile(in, out string, nrand int, seed uint64, workers, nchk, ninj int
 				if format != "snoop" {
 					gzl = len(gz(c.file))
 				}
+				if code == 5 && strings.Contains(msg, "HANG:") {
+					crashes[w] = append(crashes[w],
+						vh.M{"op": "case", "cs": ci, "fmt": format, "base": c.Base, "loc": c.Loc, "cls": c.Cls, "src": c.Src, "present": len(c.file) + gzl, "size": len(c.file), "hex": caseHex(&c)},
+						vh.M{"op": "hang", "cs": ci, "rd": fs[1], "shape": fs[2]})
+					stats.Lock()
+					stats.crashes++
+					stats.Unlock()
+					from = ci
+					continue
+				}
 				crashes[w] = append(crashes[w],
-					vh.M{"op": "case", "cs": ci, "fmt": format, "base": c.Base, "loc": c.Loc, "cls": c.Cls, "src": c.Src, "present": len(c.file) + gzl, "size": len(c.file)},
+					vh.M{"op": "case", "cs": ci, "fmt": format, "base": c.Base, "loc": c.Loc, "cls": c.Cls, "src": c.Src, "present": len(c.file) + gzl, "size": len(c.file), "hex": caseHex(&c)},
 					vh.M{"op": "crash", "cs": ci, "rd": fs[1], "shape": fs[2], "snapkb": snapkb, "oom": oom, "reqkb": reqkb, "code": code,
 						"msg": trim(strings.ReplaceAll(first, "\n", " / "), 300), "site": site})
 				stats.Lock()
 				stats.crashes++
 				stats.Unlock()
-				if ci <= from { // no progress possible
+				if ci-1 < from { // no progress possible
 					vh.Fatal("child makes no progress at case", ci, trim(msg, 2000))
 				}
 				from = ci // cases are numbered from 1: continue with the case after the crashed one
